@@ -79,7 +79,7 @@ def pool_state(pool):
     out = {}
     for key, hp in pool.host_pools.items():
         out[str(key)] = {'ready': len(hp.ready), 'busy': len(hp.busy), 'waiters': pool._host_pool_waiters.get(key, 0),
-                         'locked': hp._lock.locked()}
+                         'locked': hp._lock.locked(), 'dead_ready': sum(1 for c in hp.ready if c.closed())}
     return out
 
 
@@ -100,7 +100,7 @@ def run_case(case, part):
         try:
             peer = Peer([])
             net.default_peer = peer
-            resolver = netsim.StaticResolver({'a.test': '127.0.4.1', 'b.test': '127.0.4.2'})
+            resolver = netsim.StaticResolver({'a.test': '127.0.4.1', 'b.test': '127.0.4.2', 'c.test': '127.0.4.3'})
             if case['pool'] == 'direct':
                 pool = ConnectionPool(resolver=resolver, max_host_count=case['limit'])
             else:
@@ -208,6 +208,31 @@ def run_case(case, part):
                     probes[host] = 'ok' if t.exception() is None else type(t.exception()).__name__
                 del peer.responses[peer.index:]
             result['probes'] = probes
+            # every check-in has been processed; the servers now close their idle keep-alive connections (nobody is at an
+            # await point of theirs)
+            await pool._process_no_wait_releases()
+            for sc in net.connections:
+                if not sc.client_closed:
+                    try:
+                        sc.feed_eof()
+                    except Exception:
+                        pass
+            for _ in range(20):
+                await asyncio.sleep(0)
+            # one more healthy fetch from a host nobody used: its check-in is the pool's occasion to sweep hosts whose idle
+            # connections died in the meantime
+            peer.responses.append({'pieces': [OK], 'then': 'keep'})
+            t = asyncio.ensure_future(do_op(901, {'kind': 'http', 'host': 'c.test', 'login': False}))
+            for _ in range(3000):
+                if t.done():
+                    break
+                await asyncio.sleep(0)
+            if t.done() and t.exception() is None:
+                for _ in range(50):
+                    await asyncio.sleep(0)
+                result['state_after_sweep'] = pool_state(pool)
+            elif not t.done():
+                t.cancel()
             try:
                 http_client.close()
             except Exception:
@@ -241,9 +266,17 @@ def run_case(case, part):
         elif st['waiters']:
             part.violation('real-client-left-waiter-count/{}/{}'.format(case['pool'], culprit),
                            {'host_key': key, 'state': st, 'outcomes': result['outcomes']}, replay)
-        elif not st['ready']:
-            part.violation('real-client-idle-host-entry-not-dropped/{}/{}'.format(case['pool'], culprit),
-                           {'host_key': key, 'state': st, 'outcomes': result['outcomes']}, replay)
+    for key, st in (result.get('state_after_sweep') or {}).items():
+        if 'c.test' in key:
+            continue
+        if not st['busy'] and not st['waiters'] and st['dead_ready'] == st['ready']:
+            # nothing checked out, nobody waiting, no live idle connection: the entry is bookkeeping for an idle host
+            part.violation('real-client-idle-host-entry-not-dropped/{}/{}'.format(case['pool'], 'only-dead-connections' if st['ready'] else 'empty'),
+                           {'host_key': key, 'state': st, 'outcomes': result['outcomes'], 'ops': case['ops']}, replay)
+        else:
+            part.count('idle_host_entries_with_live_connections_kept')
+    if 'state_after_sweep' in result:
+        part.count('sweeps_observed')
     if not any(st['busy'] or st['waiters'] for st in (result.get('state') or {}).values()):
         part.count('real_client_sequences_left_pool_quiescent')
     for host, p in (result.get('probes') or {}).items():
@@ -255,8 +288,8 @@ def run_case(case, part):
 
 
 async def _settle(pool):
+    # (only what the next acquire would do anyway; the sweep of idle hosts is left to the pool's own check-ins)
     await pool._process_no_wait_releases()
-    await pool.clean()
 
 
 def _culprit(case, result):
